@@ -59,8 +59,46 @@ def r_byte_string(text):
     return ''.join(out), n
 
 
+def r_closure_tuple_param(text):
+    """TS2 (opt-in): a closure whose single parameter is a tuple pattern,
+    `|(a, b)| BODY` (as an argument of a call), -> `|vq_p| { let (a, b) = vq_p; BODY }`.
+    Verus accepts only variables as closure parameters.  A closure parameter
+    pattern is, by the Rust reference, matched against the argument exactly as an
+    irrefutable `let` pattern is (same default binding modes), so the two forms
+    bind the same names to the same values."""
+    from . import rustscan
+    n = 0
+    while True:
+        masked = rustscan.mask(text)
+        m = re.search(r'(?<=[(,\s])\|\s*(\((?:[^()|]|\([^()]*\))*\))\s*\|', masked)
+        if not m:
+            break
+        pat = text[m.start(1):m.end(1)]
+        # body: up to the `)` / `,` that closes the enclosing argument at depth 0
+        k = m.end()
+        depth = 0
+        while k < len(masked):
+            ch = masked[k]
+            if ch in '([{':
+                depth += 1
+            elif ch in ')]}':
+                if depth == 0:
+                    break
+                depth -= 1
+            elif ch == ',' and depth == 0:
+                break
+            k += 1
+        body = text[m.end():k]
+        rep = '|vq_p| { let %s = vq_p; %s }' % (pat, body.strip())
+        rep += '\n' * (text[m.start():k].count('\n'))
+        text = text[:m.start()] + rep + text[k:]
+        n += 1
+    return text, n
+
+
 RULES = {
     'TS1': r_byte_string,
+    'TS2': r_closure_tuple_param,
 }
 
 REGEX_RULES = {
